@@ -106,6 +106,8 @@ func checkC03(c *Ctx) {
 	c.Rule("C03.R2.binder", "required / empty / conversion / body / validation arms of the binder sit under the prescribed flags, with the prescribed arguments", 40)
 	checkEmitRules(c, "C03.R2.binder", ev, paramBinderRules)
 	checkBinderLocations(c, "C03.R2.locations", ev)
+	checkBinderLoops(c, ev)
+	checkDefaultInitAgreement(c, ev)
 
 	// ---- R3 Go side
 	checkParamFlags(c, gen)
@@ -401,4 +403,110 @@ func checkBodyStrategy(c *Ctx, rule string, gen *packages.Package) {
 	}
 	c.Check(bad == "", rule, "generator.codeGenOpBuilder.setBodyParamValidation › exclusive and exhaustive", c.posOf(gen, fd.Pos()), fmt.Sprintf("2^%d valuations", len(keys)),
 		"the simple-body and model-body strategies are not complementary ("+bad+"): some body schema gets no validation arm, or two")
+}
+
+// checkBinderLoops: in the body validator a validation loop is left only after an error was
+// recorded; skipping an absent optional element continues with the next one.
+func checkBinderLoops(c *Ctx, ev *tmpl.Evaluator) {
+	rule := "C03.R2.loops"
+	c.Rule(rule, "validation loops over body items stop only after recording an error", 3)
+	l := linearOf(c, ev, "bodyvalidator")
+	if l == nil {
+		c.Anchor(rule, "template bodyvalidator", "not found")
+		return
+	}
+	k := 0
+	for _, m := range regexp.MustCompile(`\bbreak\b`).FindAllStringIndex(l.Text, -1) {
+		k++
+		// previous non-empty line
+		prev := strings.TrimRight(l.Text[:m[0]], " \t\n")
+		if i := strings.LastIndexByte(prev, '\n'); i >= 0 {
+			prev = prev[i+1:]
+		}
+		ok := strings.Contains(prev, "res = append(res, ")
+		c.Check(ok, rule, fmt.Sprintf("bodyvalidator › break #%d follows an appended error", k), l.Tree.PosStr(l.PosAt(m[0])), "break after res = append(res, …)",
+			"a validation loop is left without an error having been recorded (`"+strings.TrimSpace(prev)+"` precedes the break): the remaining body items are never validated and an invalid request reaches the handler")
+	}
+	nc := len(regexp.MustCompile(`== nil \{\s*(res = append[^\n]*\s*break\s*)?continue`).FindAllString(l.Text, -1))
+	c.Check(nc >= 2, rule, "bodyvalidator › absent optional elements are skipped with continue", l.Tree.File, fmt.Sprintf("%d skips", nc), "the nil-element skip of the body item loops does not `continue` with the next element")
+}
+
+// checkDefaultInitAgreement: in New…Params, every parameter kind whose default variable is
+// declared with a placeholder value (.Zero) is given its real default by one of the deferred
+// initialisers (UnmarshalText / json.Unmarshal): small-model evaluation over the atoms of the
+// guards.
+func checkDefaultInitAgreement(c *Ctx, ev *tmpl.Evaluator) {
+	rule := "C03.R2.default-init"
+	c.Rule(rule, "a default variable declared with a placeholder is always initialised from the spec's default afterwards", 1)
+	l := linearOf(c, ev, "serverParameter")
+	if l == nil {
+		c.Anchor(rule, "template serverParameter", "not found")
+		return
+	}
+	end := strings.Index(l.Text, "BindRequest(")
+	if end < 0 {
+		end = len(l.Text)
+	}
+	var decl, inits []*tmpl.Cond
+	atoms := map[string]bool{}
+	{
+		vb := strings.Index(l.Text, "// initialize parameters with default values")
+		for _, oc := range l.Find(regexp.MustCompile(`⟦\.Zero⟧`)) {
+			if oc.Start < vb || oc.Start > end || vb < 0 {
+				continue
+			}
+			if !tmpl.GuardHas(oc.Guards, "HasDefault", +1) {
+				continue
+			}
+			cd := tmpl.StackCond(oc.Guards)
+			cd.Atoms(atoms)
+			decl = append(decl, cd)
+		}
+	}
+	for _, oc := range l.Find(regexp.MustCompile(`Default\.UnmarshalText\(|json\.Unmarshal\(\[\]byte\(`)) {
+		if oc.Start > end || !tmpl.GuardHas(oc.Guards, "HasDefault", +1) {
+			continue
+		}
+		cd := tmpl.StackCond(oc.Guards)
+		cd.Atoms(atoms)
+		inits = append(inits, cd)
+	}
+	if len(decl) < 3 || len(inits) < 2 {
+		c.Unk(rule, "serverParameter › New…Params › placeholder declarations / deferred initialisers", l.Tree.File, fmt.Sprintf("found %d placeholder declarations and %d deferred initialisers (expected ≥3 and ≥2)", len(decl), len(inits)))
+		return
+	}
+	keys := sortedKeys(atoms)
+	if len(keys) > 18 {
+		c.Unk(rule, "serverParameter › New…Params › default initialisation", l.Tree.File, fmt.Sprintf("%d atoms: too many for small-model evaluation", len(keys)))
+		return
+	}
+	bad := ""
+	for m := 0; m < 1<<len(keys) && bad == ""; m++ {
+		env := map[string]bool{}
+		for i, k := range keys {
+			env[k] = m&(1<<i) != 0
+		}
+		d := false
+		for _, cd := range decl {
+			d = d || cd.Eval(env)
+		}
+		if !d {
+			continue
+		}
+		in := false
+		for _, cd := range inits {
+			in = in || cd.Eval(env)
+		}
+		if !in {
+			var on []string
+			for _, k := range keys {
+				if env[k] {
+					on = append(on, k)
+				}
+			}
+			bad = strings.Join(on, ", ")
+		}
+	}
+	c.Check(bad == "", rule, "serverParameter › New…Params › every placeholder default is initialised", l.Tree.File, fmt.Sprintf("2^%d valuations, %d declarations, %d initialisers", len(keys), len(decl), len(inits)),
+		"with {"+bad+"} true the default variable is declared with its zero placeholder but no UnmarshalText / json.Unmarshal initialiser is emitted: an absent optional parameter is handed to the handler with the zero value instead of the spec's default")
 }
